@@ -325,14 +325,15 @@ Lemma finish e inner d (lvl : dual) : Wv e -> dvars e = all -> Wv inner -> dvars
   (forall t, dv lvl t = ddenR (ln_ t) (strip e)) ->
   (dk lvl -> ddenR rho0 inner = dd lvl) ->
   (do outer <- derivative_outer Rc RDC tb e; d_mul Rc RDC tb inner outer) = Ok d ->
-  Wv d /\ dvars d = all /\ (dk (apply_un DcT (duop e) lvl) -> ddenR rho0 d = dd (apply_un DcT (duop e) lvl)).
+  (Wv d /\ dconsistent tfl all d) /\ dvars d = all /\ (dk (apply_un DcT (duop e) lvl) -> ddenR rho0 d = dd (apply_un DcT (duop e) lvl)).
 Proof.
   intros We Ve Wi Vi Hlv Hin H.
   destruct (derivative_outer Rc RDC tb e) as [outer| |] eqn:Eo; cbn [bind] in H; try discriminate.
   destruct (outer_sem e outer We Eo) as [Wo Do].
   destruct (d_mul_sem inner outer d (proj1 Wi) (proj1 Wo) H) as (Wd & Vd & Dd).
   assert (Hvd : dvars d = all) by (rewrite Vd, Vi; exact (proj2 (union_absorb _ _ all_sorted (proj2 Wo)))).
-  split; [split; [exact Wd|rewrite Hvd; apply incl_refl]|]. split; [exact Hvd|].
+  pose proof (d_mul_cons inner outer d (proj1 Wi) (proj1 Wo) H) as Cd. rewrite Hvd in Cd.
+  split; [split; [split; [exact Wd|rewrite Hvd; apply incl_refl]|exact Cd]|]. split; [exact Hvd|].
   intros Hk. apply dk_apply_un in Hk. destruct Hk as [Kl _]. rewrite dd_apply_un, Dd, Do, (Hin Kl), Hlv, F_t0. reflexivity.
 Qed.
 
@@ -384,7 +385,7 @@ Qed.
 
 Lemma vds_rel fuel'
   (IH : forall e d : deepex R, dconsistent tfl all e -> nf e -> partial_deepex Rc RDC tb fuel' vi e MError = Ok d ->
-        Wv d /\ dvars d = all /\ (dk (ddualT e) -> ddenR rho0 d = dd (ddualT e))) :
+        (Wv d /\ dconsistent tfl all d) /\ dvars d = all /\ (dk (ddualT e) -> ddenR rho0 d = dd (ddualT e))) :
   forall (nodes : list (dnode R)) vds, Forall (nwf tfl (indexed all) (is_list all)) nodes -> Forall nnf nodes ->
   mapM (fun n => do v <- match n with DExpr e' => Ok e' | _ => new_deepex Rc [n] [] [] end;
                  do d <- partial_deepex Rc RDC tb fuel' vi v MError; Ok {| vd_val := v; vd_der := d |}) nodes = Ok vds ->
@@ -398,7 +399,7 @@ Proof.
   match type of Evd with bind ?m0 _ = _ => destruct m0 as [v| |] eqn:Ev; cbn [bind] in Evd; try discriminate end.
   destruct (partial_deepex Rc RDC tb fuel' vi v MError) as [dv_| |] eqn:Ed; cbn [bind] in Evd; try discriminate. inversion Evd; subst vd.
   destruct m as [e'|d0|j x]; cbn [nwf nnf] in *.
-  - inversion Ev; subst v. destruct (IH e' dv_ Hn1 (proj1 Hc1) Ed) as (Wd & _ & Dd).
+  - inversion Ev; subst v. destruct (IH e' dv_ Hn1 (proj1 Hc1) Ed) as ([Wd _] & _ & Dd).
     pose proof (dconsistent_vars _ _ _ Hn1) as Hv'.
     assert (We' : Wv e') by (split; [split; [rewrite Hv'; apply dconsistent_closed; exact Hn1|exact (proj1 Hc1)]|rewrite Hv'; apply incl_refl]).
     split; [exact We'|]. split; [exact Wd|]. split; [apply ddual_sound|]. intros Hk. cbn [vd_val vd_der ndual].
@@ -409,7 +410,7 @@ Qed.
 
 Theorem partial_ok : forall fuel (e d : deepex R), dconsistent tfl all e -> nf e ->
   partial_deepex Rc RDC tb fuel vi e MError = Ok d ->
-  Wv d /\ dvars d = all /\ (dk (ddualT e) -> ddenR rho0 d = dd (ddualT e)).
+  (Wv d /\ dconsistent tfl all d) /\ dvars d = all /\ (dk (ddualT e) -> ddenR rho0 d = dd (ddualT e)).
 Proof.
   induction fuel as [|fuel' IH]; intros e d Hc Hnf H; [discriminate|].
   pose proof (dconsistent_vars _ _ _ Hc) as Hvars.
@@ -430,7 +431,7 @@ Proof.
     match type of Einner with bind ?m _ = _ => destruct m as [r| |] eqn:Er; cbn [bind] in Einner; try discriminate end;
     assert (Hr : Wv r /\ (dk (ndualT n) -> ddenR rho0 r = dd (ndualT n)));
     [ inversion Hnodes as [|? ? Hn1 _]; subst; inversion Hch as [|? ? Hc1 _]; subst; destruct n as [e'|d0|j x]; cbn [nwf nnf] in *;
-      [ destruct (IH e' r Hn1 (proj1 Hc1) Er) as (Wr & _ & Dr); split; [exact Wr|exact Dr]
+      [ destruct (IH e' r Hn1 (proj1 Hc1) Er) as ([Wr _] & _ & Dr); split; [exact Wr|exact Dr]
       | apply zero_v in Er; destruct Er as [Wr Dr]; split; [exact Wr|intros _; rewrite Dr; reflexivity]
       | rewrite (var_link j x Hn1) in Er; cbn [ndual vdual dd]; destruct (str_eqb x xi);
         [apply one_v in Er|apply zero_v in Er]; destruct Er as [Wr Dr]; (split; [exact Wr|intros _; rewrite Dr; reflexivity]) ]
